@@ -48,6 +48,11 @@ func (n Number) String() string {
 		return "-Infinity"
 	}
 
+	if n == 0 {
+		// Positive and negative zero are both "0".
+		return "0"
+	}
+
 	return strconv.FormatFloat(float64(n), 'f', -1, 64)
 }
 
@@ -56,7 +61,7 @@ func (n Number) Number() float64 {
 }
 
 func (n Number) Bool() bool {
-	return n != 0
+	return n != 0 && !math.IsNaN(float64(n))
 }
 
 type String string
